@@ -2,6 +2,7 @@
 From Coq Require Import String.
 From Coq Require Import List ZArith Bool.
 Require Import MTX.Lib.IntWrap MTX.Model.C36_Metrics MTX.Proofs.C36_Metrics MTX.Model.C36_Sections MTX.Proofs.C36_Sections.
+Require Import MTX.Model.C36_Concurrent MTX.Proofs.C36_Concurrent.
 Import ListNotations.
 Local Open Scope Z_scope.
 
@@ -136,3 +137,55 @@ Example C36_example_all :
   /\ Z.of_nat (length (expected_samples ex_st [(bs "forward_dest", bs "f1")])) = 2
   /\ expected_samples ex_st [(bs "type", bs "forward_dests"); (bs "path", bs "cam")] = [].
 Proof. vm_compute. repeat split; reflexivity. Qed.
+
+(* ======================= several scrapes at the same time (Model/C36_Concurrent.v) ======================= *)
+
+(* The property holds for EACH response whatever other scrapes overlap it. The handler as instructions over what is
+   shared between the requests of one Metrics instance (the struct's fields, the RWMutex) and what belongs to one request
+   (the buffer `out`, the gin context); `responses v cs sched` = what every request has received after the requests
+   executed one instruction each in the order `sched` (any number of requests, any order, any cut `cs` of the bodies
+   into the pieces written one by one).
+   SAFETY, for ALL states, queries, schedules, cuts and at every moment: a response that has been written is the body
+   of that request alone, hence parses to exactly its expected samples. *)
+Theorem C36_overlap_safe : forall st qs (cs : list (list bytes)) sched i q body, wf_state st ->
+  Forall2 (fun q c => concat c = body_of st q) qs cs ->
+  nth_error qs i = Some q -> nth_error (CC.responses CC.PerRequest cs sched) i = Some (Some body) ->
+  body = body_of st q /\ parse body = Some (expected_samples st q).
+Proof. exact overlapped_safe. Qed.
+Print Assumptions C36_overlap_safe.
+
+(* ... and no request is held up or starved of its body by another: once it has executed its instructions
+   (number of pieces + 4) its response is there, whatever else is in the schedule *)
+Theorem C36_overlap_done : forall cs sched i c,
+  nth_error cs i = Some c -> (length c + 4 <= count_occ Nat.eq_dec sched i)%nat ->
+  nth_error (CC.responses CC.PerRequest cs sched) i = Some (Some (concat c)).
+Proof. exact per_request_done. Qed.
+Print Assumptions C36_overlap_done.
+
+(* together, for the handler model (one piece per rendered line): any interleaving, then completion, gives every
+   request the sequential body *)
+Theorem C36_overlap_sequential : forall st qs sched,
+  CC.overlapped_bodies CC.PerRequest st qs sched = map (fun q => Some (body_of st q)) qs.
+Proof. exact overlapped_sequential. Qed.
+Print Assumptions C36_overlap_sequential.
+
+(* the buffer as a field of Metrics reused between scrapes and "protected" by RLock held for the whole handler (a read
+   lock does not exclude other readers): a request receives a body that is not its own and whose samples are not the
+   expected ones (two scrapes of two paths; the second resets the buffer while the first is writing) *)
+Theorem C36_shared_buffer_rlock_refuted :
+  exists st qs sched i q body ss, wf_state st /\ nth_error qs i = Some q /\
+    nth_error (CC.overlapped_bodies CC.SharedRLock st qs sched) i = Some (Some body) /\
+    body <> body_of st q /\ parse body = Some ss /\ length ss <> length (expected_samples st q).
+Proof. exact shared_rlock_refuted. Qed.
+Print Assumptions C36_shared_buffer_rlock_refuted.
+
+(* non-vacuity: two different non-empty scrapes interleaved line by line; and the shared buffer is invisible as long as
+   scrapes come one after the other *)
+Example C36_example_overlap :
+  CC.overlapped_bodies CC.PerRequest wit_st wit_qs [0; 1; 0; 1; 0; 1; 0; 1; 0; 1; 1; 1; 0]%nat = map (fun q => Some (body_of wit_st q)) wit_qs
+  /\ map (fun q => length (expected_samples wit_st q)) wit_qs = [14; 7]%nat
+  /\ Forall2 (fun q c => concat c = body_of wit_st q) wit_qs (map (CC.scrape_chunks wit_st) wit_qs).
+Proof. exact overlapped_example. Qed.
+Example C36_example_shared_sequential :
+  CC.overlapped_bodies CC.SharedRLock wit_st wit_qs [] = map (fun q => Some (body_of wit_st q)) wit_qs.
+Proof. exact shared_rlock_sequential_example. Qed.
